@@ -447,6 +447,8 @@ for _id, _prop, _rule, _desc, _eb in [
     ("c06-result-wrong-count", "C06", "R06.1", "write_int returning a {stored, bytes} result (C02i/3) that reports 2 bytes for a 3-byte head", False),
     ("c06-result-not-committed", "C06", "R06.6", "commit_head over write_int's result (C02i/3) that does not advance the buffer", True),
     ("c10-result-count-dropped", "C10", "R10.2", "commit_head over write_int's result (C02i/3) that returns the flag instead of the byte count", False),
+    ("c04-unswitched-ttl-hint-ignored", "C04", "R04.1", "add_generic_rrlist unswitched on the rdata hint (C04i/3) whose fast loop stores ttl without its hint", False),
+    ("c04-unswitched-wrong-polarity", "C04", "R04.1", "add_generic_rrlist unswitched on the rdata hint (C04i/3) with the two loops swapped", False),
     ("c14-result-unchecked", "C14", "R14.3", "compressor step reporting through a result struct (C14i/2) whose failure flag write() ignores", False),
     ("c14-result-ok-on-error", "C14", "R14.3", "compressor step reporting through a result struct (C14i/2) that says ok for a refused code", False),
     ("c06-flush-guard-inverted", "C06", "R06.4", "flush_buffer writes only when nothing is staged", False),
